@@ -383,6 +383,10 @@ def execute(run, prop, shard):
                     pass
                 for lab, tb in variants:
                     for f in check_targets(run, tb, be, lab):
+                        if _engine_excused(prog, f):
+                            run.counters["excluded_by_domain:pol:D16"] += 1
+                            continue
+
                         def still(q, f0=f, be=be):
                             return any(True for _ in _replay_findings(q, be, f0.kind))
 
@@ -390,6 +394,19 @@ def execute(run, prop, shard):
             M.SAN.drain()
     run.inconclusive_if(shard is None and run.counters["target:pandas"] < 20, "fewer than 20 Pandas exports compared")
     run.inconclusive_if(shard is None and run.counters["target:Scalar"] < 3, "fewer than 3 Scalar exports compared")
+
+
+def _engine_excused(prog, f):
+    """D16: the extra exports of this check (derived expressions through ColExpr.export / mutate + export) can hit the Polars
+    broadcasting bug although the table itself exports: excluded by the engine's message AND the program feature."""
+    from .. import runner as R
+
+    return (
+        f.backend == "pol"
+        and f.exc in ("InvalidOperationError", "ShapeError", "ComputeError", "PanicException")
+        and bool(R.ENGINE_BUG_RE.search(f.detail) or "to be broadcasted, ensure it is a scalar" in f.detail)
+        and (R._has_horizontal(prog) or R.has_literal_case_under_operator(prog) or R.has_constant_condition(prog) or R.has_literal_left_comparison(prog))
+    )
 
 
 def _replay_findings(prog, be, kind=None):
@@ -422,7 +439,7 @@ def _replay_findings(prog, be, kind=None):
                 pass
             for tb in vs:
                 for f in check_targets(R, tb, be, h):
-                    if kind is None or f.kind == kind:
+                    if (kind is None or f.kind == kind) and not _engine_excused(prog, f):
                         yield f
 
 
